@@ -9,6 +9,9 @@ Next == /\ l <= Len(Lines) /\ l' = l + 1
         /\ IF E.e = "Case"
              THEN LET r == Verdict(E.c, E.r)
                   IN PrintT(<<"VERDICT", ToJson([id |-> E.id, v |-> r.v, at |-> r.at])>>)
+             ELSE IF E.e = "Pair"
+             THEN LET r == PairVerdict(E.c1, E.c2, E.same)
+                  IN PrintT(<<"VERDICT", ToJson([id |-> E.id, v |-> r.v, at |-> r.at])>>)
              ELSE E.e = "Meta" \/ PrintT(<<"VERDICT", ToJson([id |-> -1, v |-> "crash", at |-> {}])>>)
 Spec == Init /\ [][Next]_<<l>>
 Finished == (l = Len(Lines) + 1) => PrintT(<<"DONE", ToJson([n |-> Len(Lines)])>>)
